@@ -372,6 +372,53 @@ func C19(c *fw.Ctx) {
 			}
 		}
 	}
+	// ---- (3e) texts are data: every printable ASCII character (and a few others) inside a text, alone
+	// and next to digits, as either operand of every arithmetic and comparison operator with a number, as
+	// an argument of the numeric built-ins and as a line read from stdin: whatever the text holds, a
+	// derivable program ends with 0 or -- when the operation is a reported runtime error -- 70, never
+	// with a lexical or syntax diagnostic
+	{
+		var chars []string
+		for r := rune(0x20); r <= 0x7e; r++ {
+			if r != '"' {
+				chars = append(chars, string(r))
+			}
+		}
+		chars = append(chars, "\t", "\u09f3", "\u00e9", "\u200c", "/*", "//", "*/")
+		shapes := []func(ch string) string{
+			func(ch string) string { return ch },
+			func(ch string) string { return "1" + ch },
+			func(ch string) string { return ch + "1" },
+			func(ch string) string { return "1 " + ch + " 2" },
+		}
+		ops := []string{"+", "-", "*", "<", "==", "&"}
+		for _, ch := range chars {
+			for si, shape := range shapes {
+				if !c.Mine() {
+					continue
+				}
+				text := shape(ch)
+				for _, op := range ops {
+					for side := 0; side < 2; side++ {
+						l, r := model.Num(3), model.Str(text)
+						if side == 1 {
+							l, r = r, l
+						}
+						prog := []*model.N{T("before"), model.Print(model.Bin(op, l, r)), T("after")}
+						judge(c, prog, judgeOpts{SigPrefix: fmt.Sprintf("text-is-data|operator|shape%d", si), NoKind: true})
+					}
+				}
+				for _, b := range []string{model.BiAbs, model.BiMax, model.BiRound} {
+					prog := []*model.N{T("before"), model.Print(model.CallN(b, model.Str(text))), T("after")}
+					judge(c, prog, judgeOpts{SigPrefix: fmt.Sprintf("text-is-data|built-in|shape%d", si), NoKind: true})
+				}
+				if !strings.ContainsAny(text, "\r\n") && strings.TrimSpace(text) == text {
+					prog := []*model.N{model.Var("t", model.CallN(model.BiInput)), model.Print(model.Bin("+", model.Num(3), model.Id("t"))), model.Print(model.Bin("+", model.Id("t"), model.Num(3))), T("after")}
+					judge(c, prog, judgeOpts{SigPrefix: fmt.Sprintf("text-is-data|input|shape%d", si), Stdin: text + "\n", Lines: []string{text}, NoKind: true, NoPrompt: true, NoTwice: true})
+				}
+			}
+		}
+	}
 	// ---- (3c) calls with n arguments (n across every power of two up to 2^11, and 250..260): a program
 	// that is derivable and valid runs, prints and exits 0; the same call in a function that is never called
 	{
